@@ -663,3 +663,6 @@ SUBCHECKS = [
                   "strings 0..70 bytes: strict decode must refuse whenever a lenient TLV walk finds trailing bytes (after the sequence or "
                   "after s inside it); what else strict mode lets through is histogrammed only"),
 ]
+
+# thorough tier: coverage-guided campaigns (runs per worker, 4 workers each)
+FUZZ = {"sec_strict": 40000, "der_blobs": 40000}
